@@ -123,20 +123,32 @@ Start(c) == /\ cfg = c
 
 ToStack(a) == /\ locs' = Append(locs, Slot(off, SlotSize(a.s)))
               /\ off' = off + SlotSize(a.s)
-\* an integer-class argument: next integer register, else the stack
-IntArg(a) == /\ a.t \in IntClass /\ a.s > 0
-             /\ args' = Append(args, a)
-             /\ IF ni < cfg.ni
-                THEN locs' = Append(locs, IReg(ni + 1)) /\ ni' = ni + 1 /\ off' = off
-                ELSE ToStack(a) /\ ni' = ni
-             /\ UNCHANGED <<cfg, nf>>
-\* a float-class argument: next float register, else the stack
-FloatArg(a) == /\ a.t \in FloatClass /\ a.s > 0
+\* an integer-class argument: the next integer register ...
+IntToReg(a) == /\ a.t \in IntClass /\ a.s > 0
+               /\ ni < cfg.ni
                /\ args' = Append(args, a)
-               /\ IF nf < cfg.nf
-                  THEN locs' = Append(locs, FReg(nf + 1)) /\ nf' = nf + 1 /\ off' = off
-                  ELSE ToStack(a) /\ nf' = nf
-               /\ UNCHANGED <<cfg, ni>>
+               /\ locs' = Append(locs, IReg(ni + 1)) /\ ni' = ni + 1
+               /\ UNCHANGED <<cfg, nf, off>>
+\* ... else the stack
+IntToStack(a) == /\ a.t \in IntClass /\ a.s > 0
+                 /\ ni >= cfg.ni
+                 /\ args' = Append(args, a)
+                 /\ ToStack(a)
+                 /\ UNCHANGED <<cfg, ni, nf>>
+\* a float-class argument: the next float register ...
+FloatToReg(a) == /\ a.t \in FloatClass /\ a.s > 0
+                 /\ nf < cfg.nf
+                 /\ args' = Append(args, a)
+                 /\ locs' = Append(locs, FReg(nf + 1)) /\ nf' = nf + 1
+                 /\ UNCHANGED <<cfg, ni, off>>
+\* ... else the stack
+FloatToStack(a) == /\ a.t \in FloatClass /\ a.s > 0
+                   /\ nf >= cfg.nf
+                   /\ args' = Append(args, a)
+                   /\ ToStack(a)
+                   /\ UNCHANGED <<cfg, ni, nf>>
+IntArg(a) == IntToReg(a) \/ IntToStack(a)
+FloatArg(a) == FloatToReg(a) \/ FloatToStack(a)
 Place(a) == IntArg(a) \/ FloatArg(a)
 
 (***************************************************************************)
